@@ -164,6 +164,21 @@ CLAIMED = {
          "The model's per-term loop runs on fuel = len(key) (each step shortens the key by one); fuel exhaustion returns an "
          "error value that the correspondence never observes. Callable penalties are modelled by three fixed functions.",
     technique="Coq proof (induction over the reduction loop; consistent-extension construction) + model/implementation correspondence", ref="§5 C01"),
+ "C08": dict(
+    text="Coq theorem C08_abstract: for an objective f and any number of constraints whose penalties have the C02/C03/C06 shape "
+         "(G >= 0; G = 0 reachable by moving only the constraint's own ancillas exactly when it holds; G >= 1 otherwise) and "
+         "whose weights exceed the spread of f, every minimiser of f + sum lam_j G_j over all variables and ancillas is "
+         "feasible, minimises f over the feasible assignments, and attains exactly that constrained optimum. "
+         "C08_one_constraint discharges every hypothesis for a PCBO holding an objective plus one comparison constraint "
+         "(any relation / branch / log_trick / bounds) from the C02 theorem; C08_reduced continues through any degree "
+         "reduction (C01_minimiser) and convert_solution. The brute-force half is C09's theorem. Tied to /repo by running the "
+         "README workflow (objective + 1-2 comparison / logic constraints on PCBO and PCSO, solve_bruteforce, the four to_* "
+         "forms solved exhaustively, convert_solution, remove_ancilla_from_solution) against the model and an enumeration oracle.",
+    note="Trusted: Coq kernel + vm_compute; no axioms; hand-written models; harness. For several constraints on one model the "
+         "hypothesis G_later of C08_abstract (a penalty does not read ancillas created by later constraints) is not yet "
+         "discharged for the model in Coq (the ancilla blocks are proved disjoint and consecutive in C02_sequence); the "
+         "multi-constraint workflows are covered by the correspondence run and the enumeration oracle.",
+    technique="Coq proof (exchange argument over penalties, composed with the C01 and C02 theorems) + model/implementation correspondence", ref="§5 C08"),
 }
 NA_REASON = "check not built yet in this round; see DESIGN.md §8 (order of work)"
 
